@@ -138,6 +138,62 @@ def judge_history(ctx, case, resp):
     return None
 
 
+# ---------------------------------------------------------------------------------------------------------
+# part 2: histories of invocations over several built models (boxed contexts, services, knowledge models)
+# ---------------------------------------------------------------------------------------------------------
+
+def gen_mhistory(src):
+    from ..oracles import drg_gen
+    nm = src.int(1, 3)
+    models, calls = [], []
+    for m in range(nm):
+        c = drg_gen.gen_case(src, n_inputs=2, fd_ok=False, shape=src.choice([None] + list(drg_gen.SHAPES)) if src.bool(0.5) else None)
+        models.append(c["xml"])
+        for t in c["targets"]:
+            for inp in t["inputs"]:
+                calls.append([m, t["name"], inp])
+    if not calls:
+        calls.append([0, "none", []])
+    ops = [calls[src.int(0, len(calls) - 1)] for _ in range(src.int(5, 30))]
+    return {"models": models, "ops": ops}
+
+
+def reqs_mhistory(case):
+    return [{"op": "mhistory", "models": case["models"], "ops": case["ops"]}]
+
+
+def judge_mhistory(ctx, case, resp):
+    r = resp[0]
+    if "panic" in r or "died" in r or "timeout" in r:
+        ctx.note(key=h(case), labels=["crash(C12)"])
+        return Fail("C13/crash@%s" % r.get("location", "?"), "model history crashed: %r" % (r,))
+    if "steps" not in r:
+        return Fail("C13/driver-error", "mhistory request failed: %r" % (r,))
+    seen = {}
+    last = None
+    gap = False
+    for k, (op, st) in enumerate(zip(case["ops"], r["steps"])):
+        if st.get("skipped"):
+            continue
+        if st["input_before"] != st["input_after"]:
+            return Fail("C13/invoke-changes-input", "step %d: invoking %r of model %d changed the supplied input context\n  before %s\n  after  %s" % (
+                k, op[1], op[0], st["input_before"], st["input_after"]))
+        key = h([op[0], op[1], op[2]])
+        v = val.from_wire(st["value"])
+        if key in seen:
+            if not val.same(seen[key][0], v):
+                return Fail("C13/model-not-repeatable", "step %d: %r of model %d with input %r gave %s at step %d and %s now" % (
+                    k, op[1], op[0], op[2], val.show(seen[key][0]), seen[key][1], val.show(v)))
+            if last is not None and last != key:
+                gap = True
+        else:
+            seen[key] = (v, k)
+        last = key
+    ctx.note(key=h(case), nontrivial=gap, labels=["model-history", "models:%d" % len(case["models"])] + (["repeat-with-gap"] if gap else []),
+             sample={"models": len(case["models"]), "ops": [[o[0], o[1]] for o in case["ops"][:8]]})
+    return None
+
+
 def setup(ctx):
     ctx.rule = ("histories: 2-5 prepared core-fragment expressions (biased to constructs that push temporary contexts) x 2-4 scopes of different "
                 "stack shape x 5-40 interleaved evaluate/parse steps; invariants after every step: every scope renders exactly as initially, "
@@ -146,10 +202,12 @@ def setup(ctx):
                 "context; distinct by history hash")
     ctx.assumptions = ["Scope::to_string() renders every context and entry of the stack (byte comparison)"]
     ctx.p_hist = ctx.register(Part("history", gen_history, reqs_history, judge_history))
+    ctx.p_mhist = ctx.register(Part("model-history", gen_mhistory, reqs_mhistory, judge_mhistory))
 
 
 def run(ctx):
-    ctx.forall(ctx.p_hist, ctx.scale(6000, 200000), batch=50)
+    ctx.forall(ctx.p_hist, ctx.scale(20000, 400000), batch=50)
+    ctx.forall(ctx.p_mhist, ctx.scale(8000, 160000), batch=25)
 
 
 if __name__ == "__main__":
